@@ -64,6 +64,73 @@ def absent_edges_of_place(body, pred):
     return edges
 
 
+def _result_leaves(body):
+    """leaf definitions of the value a body returns (through copies and the Poll::Ready wrapper of an async block); None when unknown"""
+    out = []
+    live = flow.reach(body, [0], removed=frozenset(paths.const_dead_edges(body)))
+    for bi in sorted(live):
+        for st in body.blocks[bi]["stmts"]:
+            if st["dst"]["l"] == 0 and not st["dst"]["proj"]:
+                rv = st["rv"]
+                if rv["k"] == "agg" and rv.get("adt") == "core::task::poll::Poll":
+                    if rv.get("variant") != "Ready" or not rv["ops"]:
+                        continue
+                    r = flow._value_sources(body, rv["ops"][0], bi, 0, set())
+                elif rv["k"] == "agg" and rv.get("adt") == "core::result::Result":
+                    r = [{"bi": bi, "kind": rv["variant"], "rv": rv}]
+                elif rv["k"] == "use":
+                    r = flow._value_sources(body, rv["ops"][0], bi, 0, set())
+                else:
+                    r = None
+                if r is None:
+                    return None
+                out += r
+        t = body.blocks[bi]["term"]
+        if t["k"] == "call" and t["dst"]["l"] == 0 and not t["dst"]["proj"]:
+            d = callee_def(t)
+            out.append({"bi": bi, "kind": "residual" if d.endswith("FromResidual::from_residual") else "call", "term": t})
+    return out
+
+
+def _refuses_anonymous(body):
+    """every way the body returns success passes a successful access::default_check, or lies behind `credentials()` being present"""
+    good = set()
+    delegates = set()
+    for bi, t in body.calls():
+        d = callee_def(t)
+        if d == "s3s::access::default_check":
+            c, _, _ = continue_edges(body, bi)
+            good |= c
+            delegates.add(bi)
+        elif short(d) == "credentials":
+            o = flow.outcomes_of_call(body, bi)
+            good |= o.get("Some")
+            for b2, t2 in body.calls():
+                d2 = callee_def(t2)
+                if d2 in ("core::option::Option::<T>::is_none", "core::option::Option::<T>::is_some") and t2["args"]:
+                    p = flow.op_place(t2["args"][0])
+                    if p is not None and p["l"] in o.carriers:
+                        o2 = flow.outcomes_of_call(body, b2)
+                        good |= o2.get("false") if d2.endswith("is_none") else o2.get("true")
+    if not good and not delegates:
+        return False
+    leaves = _result_leaves(body)
+    if leaves is None:
+        rets = flow.return_blocks(body)
+        return bool(rets) and bool(good) and flow.must_pass(body, rets, good)
+    if not leaves:
+        return False
+    for w in leaves:
+        if w["kind"] in ("Err", "residual"):
+            continue
+        if w["kind"] == "call" and w["bi"] in delegates:
+            continue
+        if good and flow.must_pass(body, [w["bi"]], good):
+            continue
+        return False
+    return True
+
+
 def rule_prepare(chk, db, roles):
     body = find_prepare(db)
     A = [(bi, t) for bi, t in body.calls() if is_sig_check(t)]
@@ -138,6 +205,22 @@ def rule_prepare(chk, db, roles):
                     fw = first_writes_from(dc, none)
                     ok = bool(fw) and all(is_err_write(w) for w in fw)
         chk.verdict(ok, "R3", "default-refuses-anonymous", dc.loc(), "access::default_check does not return Err when credentials() is None")
+    # the provided `S3Access::check` (what a hook that only overrides typed methods inherits) refuses anonymous as well
+    provided = [b for b in db.grep("S3Access", "check") if b.crate == "s3s" and b.name.startswith("s3s::access::") and "::S3Access::check" in b.name
+                and any(callee_def(t) == "s3s::access::default_check" or short(callee_def(t)) == "credentials" for _, t in b.calls())]
+    outer = [b for b in db.grep("S3Access", "check") if b.crate == "s3s" and b.name.endswith("::S3Access::check") and b.name.startswith("s3s::access::")]
+    if not outer:
+        chk.anchor_missing("R3", "the provided method S3Access::check was not found")
+    else:
+        ok = False
+        where = outer[0].loc()
+        for pb in provided:
+            ib = inline.inlined(db, pb)
+            ok = ok or _refuses_anonymous(ib)
+            where = pb.loc()
+        chk.verdict(ok, "R3", "provided-check-refuses-anonymous", where,
+                    "the provided method S3Access::check (inherited by hooks that override only typed methods) neither delegates to access::default_check "
+                    "nor returns Err when credentials() is None")
     # R4 custom route sees only verified requests; CustomRoute only on match
     M = [(bi, t) for bi, t in body.calls() if t["callee"].get("trait") == roles.S3Route and short(callee_def(t)) == "is_match"]
     chk.floor("R4", len(M), 1, "S3Route::is_match call sites")
